@@ -390,6 +390,247 @@ example : hasRoot [.root, .parent, .parent, .normal ['b']] = true ∧
     normalize true [.root, .parent, .parent, .normal ['b']] = [.root, .normal ['b']] := by
   decide
 
+/-! ## The literal of a require call is normalised without changing what it means -/
+
+theorem last_rel_step (st : List Comp) (c : Comp)
+    (hl : st.getLast? = some .cur ∨ st.getLast? = some .parent) :
+    (normStep true st c).getLast? = some .cur ∨ (normStep true st c).getLast? = some .parent := by
+  cases st with
+  | nil => simp at hl
+  | cons a t =>
+    cases c with
+    | root => simpa [normStep, List.getLast?_cons_cons] using hl
+    | normal s => simpa [normStep, List.getLast?_cons_cons] using hl
+    | cur => simpa [normStep] using hl
+    | parent =>
+      cases t with
+      | nil => cases a <;> simp_all [normStep]
+      | cons b u => cases a <;> simp_all [normStep, List.getLast?_cons_cons]
+
+theorem last_rel_foldl (p : Path) : ∀ st,
+    (st.getLast? = some .cur ∨ st.getLast? = some .parent) →
+    ((p.foldl (normStep true) st).getLast? = some .cur ∨
+      (p.foldl (normStep true) st).getLast? = some .parent) := by
+  induction p with
+  | nil => intro st hl; simpa using hl
+  | cons c cs ih => intro st hl; exact ih _ (last_rel_step st c hl)
+
+/-- a `./` or `../` literal is still one after normalisation -/
+theorem normalize_relative (p : Path) (h : isRequireRelative p = true) :
+    isRequireRelative (normalize true p) = true := by
+  cases p with
+  | nil => simp [isRequireRelative] at h
+  | cons c cs =>
+    have h0 : (normStep true [] c).getLast? = some .cur ∨ (normStep true [] c).getLast? = some .parent := by
+      cases c <;> simp_all [isRequireRelative, normStep]
+    have hl := last_rel_foldl cs _ h0
+    unfold normalize
+    simp only [List.cons_ne_nil, if_false, List.foldl_cons]
+    by_cases hst : cs.foldl (normStep true) (normStep true [] c) = []
+    · simp [hst, isRequireRelative]
+    · simp only [hst, if_false, isRequireRelative, List.head?_reverse]
+      rcases hl with hl | hl <;> simp [hl]
+
+/-- joining and then walking = walking the base, then the joined path (a rooted `q` resets both) -/
+theorem resolve_push (loc : List Name) (base q : Path) :
+    resolve loc (push base q) = resolve (resolve loc base) q := by
+  cases q with
+  | nil =>
+    have : resolve (resolve loc base) [] = resolve loc base := rfl
+    simp [push, hasRoot, resolve_reparse, this]
+  | cons c t =>
+    cases c with
+    | root => simp [push, hasRoot, resolve, resolveStep]
+    | cur => simp [push, hasRoot, resolve_reparse, resolve_append]
+    | parent => simp [push, hasRoot, resolve_reparse, resolve_append]
+    | normal s => simp [push, hasRoot, resolve_reparse, resolve_append]
+
+theorem root_mem_normStep (k : Bool) (st : List Comp) (c : Comp)
+    (h : Comp.root ∈ normStep k st c) : Comp.root ∈ st ∨ c = .root := by
+  cases c with
+  | root => exact Or.inr rfl
+  | normal s => left; simpa [normStep] using h
+  | cur =>
+    left
+    cases st with
+    | nil => cases k <;> simp [normStep] at h
+    | cons a t => simpa [normStep] using h
+  | parent =>
+    left
+    cases st with
+    | nil => simp [normStep] at h
+    | cons a t => cases a <;> simp_all [normStep]
+
+theorem root_mem_foldl (k : Bool) (p : Path) : ∀ st,
+    Comp.root ∈ p.foldl (normStep k) st → Comp.root ∈ st ∨ Comp.root ∈ p := by
+  induction p with
+  | nil => intro st h; exact Or.inl (by simpa using h)
+  | cons c cs ih =>
+    intro st h
+    rcases ih _ (by simpa using h) with h1 | h1
+    · rcases root_mem_normStep k st c h1 with h2 | h2
+      · exact Or.inl h2
+      · exact Or.inr (by simp [h2])
+    · exact Or.inr (by simp [h1])
+
+/-- normalisation does not invent a root -/
+theorem root_mem_normalize (k : Bool) (p : Path) (h : Comp.root ∈ normalize k p) : Comp.root ∈ p := by
+  unfold normalize at h
+  by_cases hp : p = []
+  · simp [hp] at h
+  · simp only [hp, if_false] at h
+    by_cases hst : p.foldl (normStep k) [] = []
+    · simp [hst] at h
+    · simp only [hst, if_false, List.mem_reverse] at h
+      rcases root_mem_foldl k p [] h with h1 | h1
+      · simp at h1
+      · exact h1
+
+/-- What `match_path_require_call` makes of a source-prefixed literal: the source name stays
+first, and what follows leads where the written tail leads. -/
+theorem matchCall_normal (n : Name) (rest : Path) (hwf : Comp.root ∉ rest) :
+    ∃ t', matchPathRequireCall (.normal n :: rest) = .normal n :: t' ∧ hasRoot t' = false ∧
+      ∀ X, resolve X t' = resolve X rest := by
+  have hlex := fun X => normalize_lexical false X rest
+  by_cases ht : normalize false rest = [] ∨ normalize false rest = [.cur]
+  · refine ⟨[], by simp [matchPathRequireCall, ht], rfl, ?_⟩
+    intro X
+    have := hlex X
+    rcases ht with ht | ht <;> rw [ht] at this <;> simpa [resolve, resolveStep] using this
+  · have hnr : Comp.root ∉ normalize false rest := fun h => hwf (root_mem_normalize false rest h)
+    have hroot : hasRoot (normalize false rest) = false := by
+      cases hn : normalize false rest with
+      | nil => rfl
+      | cons c t =>
+        cases c with
+        | root => rw [hn] at hnr; simp at hnr
+        | cur => rfl
+        | parent => rfl
+        | normal s => rfl
+    refine ⟨dropCur (normalize false rest), ?_, ?_, ?_⟩
+    · simp [matchPathRequireCall, ht, push, hroot, reparse]
+    · cases hd : dropCur (normalize false rest) with
+      | nil => rfl
+      | cons c t =>
+        cases c with
+        | root =>
+          have : Comp.root ∈ dropCur (normalize false rest) := by rw [hd]; simp
+          simp only [dropCur, List.mem_filter] at this
+          exact absurd this.1 hnr
+        | cur => rfl
+        | parent => rfl
+        | normal s => rfl
+    · intro X; rw [resolve_dropCur]; exact hlex X
+
+def denote (cwd : List Name) : Except FindErr Path → Except FindErr (List Name)
+  | .ok p => .ok (resolve cwd p)
+  | .error e => .error e
+
+theorem pathHead_relative_eq (m : PathMode) (proj r source : Path) (h : isRequireRelative r = true) :
+    pathHead m proj r source = .ok (push (pop source) r) := by
+  simp [pathHead, h]
+
+theorem pathHead_root_eq (m : PathMode) (proj r source : Path) (h : isRequireRelative r = false)
+    (hk : hasRoot r = true) : pathHead m proj r source = .ok r := by
+  simp [pathHead, h, hk]
+
+theorem luauHead_relative_eq (m : LuauMode) (proj r source : Path) (h : isRequireRelative r = true) :
+    luauHead m proj r source =
+      .ok (push (if isModuleFolderName initName source then parentDirectory (relParent source)
+        else relParent source) r) := by
+  by_cases hm : isModuleFolderName initName source = true <;> simp [luauHead, h, hm]
+
+theorem luauHead_root_eq (m : LuauMode) (proj r source : Path) (h : isRequireRelative r = false)
+    (hk : hasRoot r = true) : luauHead m proj r source = .ok r := by
+  simp [luauHead, h, hk]
+
+theorem not_relative_of_root {r : Path} (hk : hasRoot r = true) : isRequireRelative r = false := by
+  cases r with
+  | nil => rfl
+  | cons c t => cases c <;> simp_all [hasRoot, isRequireRelative]
+
+/-- Path mode: normalising the literal of a require call first (as every rule does) never
+changes where the head of the resolution leads, nor the error — in particular `pkg/../m` keeps
+its source name (this was false before the fix of F30). `hwf`: as in every parsed path, a root
+can only be the first component. -/
+theorem path_head_matchCall (m : PathMode) (proj lit source : Path) (cwd : List Name)
+    (hwf : Comp.root ∉ lit.tail) :
+    denote cwd (pathHead m proj (matchPathRequireCall lit) source) =
+      denote cwd (pathHead m proj lit source) := by
+  cases lit with
+  | nil => simp [matchPathRequireCall, normalize]
+  | cons c rest =>
+    cases c with
+    | normal n =>
+      obtain ⟨t', h1, h2, h3⟩ := matchCall_normal n rest (by simpa using hwf)
+      rw [h1]
+      simp only [pathHead, isRequireRelative, hasRoot, List.head?_cons, compStr]
+      cases getSourcePath m n proj with
+      | none => simp [denote]
+      | some loc => simp [denote, resolve_push, h3]
+    | root =>
+      have hk := normalize_keeps_root true (.root :: rest) rfl
+      have e : matchPathRequireCall (.root :: rest) = normalize true (.root :: rest) := rfl
+      rw [e, pathHead_root_eq _ _ _ _ (not_relative_of_root hk) hk,
+        pathHead_root_eq _ _ _ _ (not_relative_of_root rfl) rfl]
+      simp [denote, normalize_lexical]
+    | cur =>
+      have e : matchPathRequireCall (.cur :: rest) = normalize true (.cur :: rest) := rfl
+      rw [e, pathHead_relative_eq _ _ _ _ (normalize_relative (.cur :: rest) rfl),
+        pathHead_relative_eq _ _ _ _ rfl]
+      simp [denote, resolve_push, normalize_lexical]
+    | parent =>
+      have e : matchPathRequireCall (.parent :: rest) = normalize true (.parent :: rest) := rfl
+      rw [e, pathHead_relative_eq _ _ _ _ (normalize_relative (.parent :: rest) rfl),
+        pathHead_relative_eq _ _ _ _ rfl]
+      simp [denote, resolve_push, normalize_lexical]
+
+/-- Luau mode: the same. -/
+theorem luau_head_matchCall (m : LuauMode) (proj lit source : Path) (cwd : List Name)
+    (hwf : Comp.root ∉ lit.tail) :
+    denote cwd (luauHead m proj (matchPathRequireCall lit) source) =
+      denote cwd (luauHead m proj lit source) := by
+  cases lit with
+  | nil => simp [matchPathRequireCall, normalize]
+  | cons c rest =>
+    cases c with
+    | normal n =>
+      obtain ⟨t', h1, h2, h3⟩ := matchCall_normal n rest (by simpa using hwf)
+      rw [h1]
+      simp only [luauHead, isRequireRelative, hasRoot, List.head?_cons, compStr]
+      by_cases hs : n = selfName
+      · simp [hs, denote, resolve_push, h3]
+      · by_cases ha : n.head? = some '@'
+        · simp only [hs, ha, if_true, if_false]
+          cases getSourceLuau m n proj with
+          | none => simp [denote]
+          | some loc => simp [denote, resolve_push, h3]
+        · have := h3 (n :: cwd)
+          simp [hs, ha, denote]
+          simpa [resolve, resolveStep] using this
+    | root =>
+      have hk := normalize_keeps_root true (.root :: rest) rfl
+      have e : matchPathRequireCall (.root :: rest) = normalize true (.root :: rest) := rfl
+      rw [e, luauHead_root_eq _ _ _ _ (not_relative_of_root hk) hk,
+        luauHead_root_eq _ _ _ _ (not_relative_of_root rfl) rfl]
+      simp [denote, normalize_lexical]
+    | cur =>
+      have e : matchPathRequireCall (.cur :: rest) = normalize true (.cur :: rest) := rfl
+      rw [e, luauHead_relative_eq _ _ _ _ (normalize_relative (.cur :: rest) rfl),
+        luauHead_relative_eq _ _ _ _ rfl]
+      simp [denote, resolve_push, normalize_lexical]
+    | parent =>
+      have e : matchPathRequireCall (.parent :: rest) = normalize true (.parent :: rest) := rfl
+      rw [e, luauHead_relative_eq _ _ _ _ (normalize_relative (.parent :: rest) rfl),
+        luauHead_relative_eq _ _ _ _ rfl]
+      simp [denote, resolve_push, normalize_lexical]
+
+/-- regression (former F30 witness): `pkg/../m` keeps its source name -/
+example : matchPathRequireCall [.normal ['p', 'k', 'g'], .parent, .normal ['m']] =
+    [.normal ['p', 'k', 'g'], .parent, .normal ['m']] ∧
+    matchPathRequireCall [.normal ['p', 'k', 'g'], .normal ['x'], .parent, .cur] = [.normal ['p', 'k', 'g']] ∧
+    Comp.root ∉ [Comp.parent, Comp.normal ['m']] := by decide
+
 /-! ## convert_require keeps the target -/
 
 /-- Full statement: whenever a call resolves under the current mode and is rewritten, the new
